@@ -147,6 +147,12 @@ func (w *World) verifyFunc(sel string, con *Contract) *FuncResult {
 			c0.clause = &con.Requires[i]
 			st.assume(ex.safeFormula(c0, con.Requires[i].Text))
 		}
+		for i := range con.Assumes {
+			c0.clause = &con.Assumes[i]
+			st.assume(ex.safeFormula(c0, con.Assumes[i].Text))
+			ex.note("ASSUMED (not demanded of callers): %s assumes %s", sel, con.Assumes[i].Text)
+			ex.d.trust("assumed input well-formedness: " + sel + " assumes " + con.Assumes[i].Label + ": " + con.Assumes[i].Text)
+		}
 		if len(con.Implements) > 0 {
 			for i := range con.Requires {
 				ex.note("closure precondition assumed at its call sites (an invariant of the captured state, established where the closure is created): %s requires %s", sel, con.Requires[i].Text)
